@@ -344,7 +344,7 @@ func init() { engine.Register("C17", func() engine.Check { return &c17{} }) }
 func (c *c17) ID() string { return "C17" }
 func (c *c17) Meta() engine.Meta {
 	m := modelMeta("exhaustive program enumeration (gadget sequences) x history family on the real application, lock-step differential execution against a reference EVM world",
-		"C17: contracts assembled from 22 gadgets (SSTORE const, SLOAD+1, LOG1, BALANCE(EOA)->storage, BALANCE(never-seen address)->storage, CALL with value to an EOA / to another contract / to a reverting contract (with and without value) / to a contract that reads the BALANCE of a never-seen account and reverts / to a contract that reverts without value and accepts value / to itself with little gas, CREATE and CREATE2 of a child, CALLVALUE / SELFBALANCE -> storage, a gas-burning loop, RETURN data, REVERT data, SELFDESTRUCT to another account / to the caller): ALL gadget sequences up to length 3 (quick) / 4 (thorough). Each program runs in 3 history families mixing: deployment with and without value, calls with and without value by two callers, a plain transfer to the contract, a plain transfer to a child the contract created, native transfers to and from the touched accounts before and after, staking by the caller, native credits landing BETWEEN two contract transactions of the same block that touch the credited account, blocks with and without proposer, and a vm_call query after every block. "+
+		"C17: contracts assembled from 22 gadgets (SSTORE const, SLOAD+1, LOG1, BALANCE(EOA)->storage, BALANCE(never-seen address)->storage, CALL with value to an EOA / to another contract / to a reverting contract (with and without value) / to a contract that reads the BALANCE of a never-seen account and reverts / to a contract that reverts without value and accepts value / to itself with little gas, CREATE and CREATE2 of a child, CALLVALUE / SELFBALANCE -> storage, a gas-burning loop, RETURN data, REVERT data, SELFDESTRUCT to another account / to the caller): ALL gadget sequences up to length 3 (quick) / 4 (thorough). Each program runs in 4 history families mixing: deployment with and without value, calls with and without value by two callers, a plain transfer to the contract, a plain transfer to a child the contract created, native transfers to and from the touched accounts before and after, staking by the caller, native credits landing BETWEEN two contract transactions of the same block that touch the credited account, blocks with and without proposer, and a vm_call query after every block. "+
 			"Oracle: mc/evmref = vanilla go-ethereum StateDB + core.ApplyMessage with the application's chain configuration and block context; balances and nonces are overwritten from the native-ledger model before every message and copied back after it. Compared per transaction: success/failure, return data (created address for deployments), gas used, logs; at every committed height: native balance and nonce of EVERY account of the reference world, contract code and storage of every contract (also children). A failing execution follows RIGO's own rule (no effect, no fee). vm_call: same result as a read-only reference call, and the complete state is unchanged by it.",
 		"go-ethereum's interpreter, StateDB and ApplyMessage are a dependency and trusted; what is judged is the repository's state-db wrapper and controller")
 	m.LevelName = "length of the gadget sequence"
@@ -365,9 +365,9 @@ func (c *c17) Prepare(tier string, seed int64) error {
 		if len(cur) > 0 {
 			fams := []int{0}
 			if len(cur) <= 2 {
-				fams = []int{0, 1, 2}
+				fams = []int{0, 1, 2, 3}
 			} else if len(cur) == 3 {
-				fams = []int{len(c.cases) % 3}
+				fams = []int{len(c.cases) % 4}
 			} else {
 				fams = []int{len(c.cases) % 3}
 			}
@@ -429,6 +429,18 @@ func c17History(prog []int, fam int) (sim.History, []string) {
 			blkO(sim.BlockOpts{Proposer: "V1"}, big(call("U1", P, "", "1")), big(call("U1", P, "", "0"))),
 			blk(tr("U1", P, "0"), tr("U0", "U1", "3")),
 			blkO(sim.BlockOpts{Proposer: "V0"}, big(call("W", P, "", "0")), big(tr("W", child, "0"))),
+		}
+	case 3:
+		// nonce interplay: an account takes part in a contract transaction (so the EVM state holds a copy of it), then
+		// sends native transactions, then is touched again by contract code (possibly first inside a reverting inner frame)
+		blocks = []sim.Block{
+			blk(deploy("U0", counterInit, "0"), deploy("W", revertInit, "0"), peek, pickyDeploy),
+			blk(big(deploy("U0", initc, "0"))),
+			blk(big(call("fresh-untouched", P, "", "0"))),
+			blk(tr("fresh-untouched", "W", "1"), tr("fresh-untouched", "W", "2")),
+			blk(big(call("U1", P, "", "0"))),
+			blk(with(tr("fresh-untouched", "W", "2"), func(s *sim.TxSpec) { s.NonceOff = -1 }, "replay of the previous nonce"), tr("fresh-untouched", "W", "3"), big(call("U1", P, "", "1"))),
+			blk(tr("fresh-untouched", "U1", "4")),
 		}
 	default:
 		nop := sim.BlockOpts{}
